@@ -491,27 +491,8 @@ def A_alphabet(ctx, lib):
            found="template %r, integer argument: %s" % (lit, args_ok))
 
 
-def source_literal(loc):
-    """first string literal inside the source range loc = [file, l1, c1, l2, c2] (relative to the repository root)"""
-    import os
-    import re
-    path = os.path.join(facts.REPO, loc[0])
-    try:
-        lines = open(path).read().split("\n")
-    except OSError:
-        return None
-    l1, c1, l2, c2 = loc[1], loc[2], loc[3], loc[4]
-    if l1 == l2:
-        text = lines[l1 - 1][c1 - 1:c2 - 1]
-    else:
-        text = "\n".join([lines[l1 - 1][c1 - 1:]] + lines[l1:l2 - 1] + [lines[l2 - 1][:c2 - 1]])
-    m = re.search(r'"((?:[^"\\\\]|\\\\.)*)"', text)
-    return m.group(1) if m else None
-
-
-def strip_placeholders(lit):
-    import re
-    return re.sub(r"\{[^{}]*\}", "", lit.replace("{{", "").replace("}}", ""))
+source_literal = shared.source_literal
+strip_placeholders = shared.strip_placeholders
 
 
 def check(ctx):
